@@ -106,13 +106,13 @@ example : (kidsFull exAny "t").map (·.2) = [3, 2, 0, 1] ∧ CoversNF exAny ∧ 
 /-- **the interfaces of the instantiated definitions survive write-then-read**: for every child, the
     definition it instantiates has in the re-read netlist exactly the (port, bit) pairs it has in `n`
     (same port names, same widths).  Extra hypotheses, all decidable: the pin mirror of `n` (what
-    `pin_mirror` proves for every netlist the reader produces), `LatchConnected n` (the pins of
-    `.latch` children sit on wires), `BBWide` (ports of black-box definitions have a pin).
+    `pin_mirror` proves for every netlist the reader produces), `LatchSep n t` (`generic-latch` is
+    instantiated by `.latch` children only), `BBWide` (ports of black-box definitions have a pin).
     This holds for the REPAIRED reader (`parse_subcircuit_port` gives a port pins up to the formal's
     index also for `unconn` actuals, docs/fixes/eblif_unconn_bus_bit_keeps_width.diff); with the
     original code upper bus bits that are `unconn` on every instance were lost (`exShrink`). -/
 theorem eblif_roundtrip_leaf_ports (o : Opts) (n : BNet) (t : String) (hw : WellNamed n) (hf : FragFull n t)
-    (hn : NetOKA n t) (hnm : NamesOK o n) (hbp : BBPlain n t) (hpm : n.PinMirror) (hdg : LatchConnected n)
+    (hn : NetOKA n t) (hnm : NamesOK o n) (hbp : BBPlain n t) (hpm : n.PinMirror) (hdg : LatchSep n t)
     (hbw : BBWide n t) (n' : BNet) (h : readB (composeText o n) = Except.ok n') :
     ∀ k ∈ kidsFull n t, ∀ pn b,
       (pn, b) ∈ allPins (n'.findDef k.1.model) ↔ (pn, b) ∈ allPins (n.findDef k.1.model) :=
@@ -120,7 +120,7 @@ theorem eblif_roundtrip_leaf_ports (o : Opts) (n : BNet) (t : String) (hw : Well
 
 set_option maxRecDepth 100000 in
 set_option maxHeartbeats 4000000 in
-example : exAny.PinMirror ∧ LatchConnected exAny ∧ BBWide exAny "t" ∧ exFull.PinMirror ∧ LatchConnected exFull ∧ BBWide exFull "t" := by
+example : exAny.PinMirror ∧ LatchSep exAny "t" ∧ BBWide exAny "t" ∧ exFull.PinMirror ∧ LatchSep exFull "t" ∧ BBWide exFull "t" := by
   decide
 
 /-! ### the regression example of the finding `eblif.unconn-bus-bit-loses-width`
@@ -148,7 +148,7 @@ set_option maxRecDepth 100000 in
 set_option maxHeartbeats 4000000 in
 theorem leaf_port_kept :
     WellNamed exShrink ∧ NetOKA exShrink "t" ∧ NamesOK {} exShrink ∧ BBPlain exShrink "t" ∧ exShrink.PinMirror ∧
-    BBWide exShrink "t" ∧ LatchConnected exShrink ∧
+    BBWide exShrink "t" ∧ LatchSep exShrink "t" ∧
     ((exShrink.findDef "B").ports.map (fun p => (p.name, p.width)) = [("J", 2), ("O", 1)]) ∧
     portsAfter (readB (composeText {} exShrink)) "B" = [("J", 2), ("O", 1)] := by decide
 
